@@ -134,9 +134,12 @@ def check_division(ctx, chk):
     fi_, ip_, s_, cn_ = method_run(ctx, "generate", no_inline=tuple(
         n for n in gcls.methods if n != "generate"))
     H = head_guard(s_, ip_, cn_)
+    conjuncts = list(H[1]) if H[0] == "and" else [H]
     for p_ in gen.params[1:]:
+        mine = [g for g in conjuncts if any(a.endswith(f"<{p_}") for a in f_atoms(g))]
+        Hp = f_and(mine) if mine else ("true",)
         for c_ in (2, 1, 0):
-            if f_implies(H, A(f"{c_}<{p_}")):
+            if mine and f_implies(Hp, A(f"{c_}<{p_}")):
                 penv[p_] = iv.Iv(c_, iv.INF, True, True)
                 break
     int_params = {"num_hosts", "num_services", "num_os", "num_processes", "restrictiveness"}
